@@ -416,7 +416,7 @@ fn big_class_cfg() -> Cfg {
 
 pub fn gen_c01(rng: &mut Rng, tier: &str, out: &mut Out) {
     let th = thorough(tier);
-    let n = if th { 1500 } else { 90 };
+    let n = if th { 1500 } else { 360 };
     for i in 0..n {
         let mut cfg = Cfg::domain();
         if i % 7 == 0 {
@@ -461,7 +461,7 @@ pub fn gen_c01(rng: &mut Rng, tier: &str, out: &mut Out) {
 
 pub fn gen_c02(rng: &mut Rng, tier: &str, out: &mut Out) {
     let th = thorough(tier);
-    let n = if th { 1200 } else { 70 };
+    let n = if th { 1200 } else { 280 };
     for i in 0..n {
         let cfg = if i % 10 == 6 { big_class_cfg() } else { Cfg::domain() };
         let mut text = domain_mapping(rng, &cfg);
@@ -527,7 +527,7 @@ pub fn gen_c02(rng: &mut Rng, tier: &str, out: &mut Out) {
 
 pub fn gen_c03(rng: &mut Rng, tier: &str, out: &mut Out) {
     let th = thorough(tier);
-    let n = if th { 2500 } else { 160 };
+    let n = if th { 2500 } else { 640 };
     for _ in 0..n {
         let mut cfg = Cfg::domain();
         cfg.min_classes = 2;
@@ -552,7 +552,7 @@ pub fn gen_c03(rng: &mut Rng, tier: &str, out: &mut Out) {
 
 pub fn gen_c04(rng: &mut Rng, tier: &str, out: &mut Out) {
     let th = thorough(tier);
-    let n = if th { 400 } else { 40 };
+    let n = if th { 400 } else { 160 };
     for i in 0..n {
         let mut cfg = Cfg::domain();
         cfg.many_similar = true;
@@ -697,7 +697,7 @@ pub fn malformed_variants(rng: &mut Rng, line: &str) -> Vec<String> {
 
 pub fn gen_c05(rng: &mut Rng, tier: &str, out: &mut Out) {
     let th = thorough(tier);
-    let n = if th { 60000 } else { 6000 };
+    let n = if th { 60000 } else { 24000 };
     for _ in 0..n {
         let l = wf_line(rng);
         let term = rng.pick(&["", "\n", "\r\n", "\n\n", "\r"]);
@@ -775,7 +775,7 @@ pub fn gen_c05(rng: &mut Rng, tier: &str, out: &mut Out) {
 
 pub fn gen_c06(rng: &mut Rng, tier: &str, out: &mut Out) {
     let th = thorough(tier);
-    let n = if th { 40000 } else { 4000 };
+    let n = if th { 40000 } else { 16000 };
     for i in 0..n {
         let text = match i % 5 {
             0 => soup(rng, 60),
@@ -830,7 +830,7 @@ pub fn gen_c06(rng: &mut Rng, tier: &str, out: &mut Out) {
 
 pub fn gen_c07(rng: &mut Rng, tier: &str, out: &mut Out) {
     let th = thorough(tier);
-    let n = if th { 3000 } else { 250 };
+    let n = if th { 3000 } else { 1000 };
     for i in 0..n {
         let text = if i % 6 == 0 { Vec::new() } else { domain_mapping(rng, &Cfg::domain()) };
         map_op(out, true, &text);
@@ -852,7 +852,7 @@ pub fn gen_c07(rng: &mut Rng, tier: &str, out: &mut Out) {
 
 pub fn gen_c08(rng: &mut Rng, tier: &str, out: &mut Out) {
     let th = thorough(tier);
-    let n = if th { 3000 } else { 250 };
+    let n = if th { 3000 } else { 1000 };
     for _ in 0..n {
         let text = domain_mapping(rng, &Cfg::domain());
         map_op(out, true, &text);
@@ -881,7 +881,7 @@ pub fn gen_c08(rng: &mut Rng, tier: &str, out: &mut Out) {
 
 pub fn gen_c09(rng: &mut Rng, tier: &str, out: &mut Out) {
     let th = thorough(tier);
-    let n = if th { 4000 } else { 400 };
+    let n = if th { 4000 } else { 1600 };
     for i in 0..n {
         let mut cfg = Cfg::domain();
         if i % 9 == 0 {
@@ -949,7 +949,7 @@ fn buf_queries(out: &mut Out, rng: &mut Rng, dom: bool, u: &Universe, nline: usi
 
 pub fn gen_c10(rng: &mut Rng, tier: &str, out: &mut Out) {
     let th = thorough(tier);
-    let n = if th { 2500 } else { 200 };
+    let n = if th { 2500 } else { 800 };
     for i in 0..n {
         let text = if i % 5 == 4 { gen_mapping(rng, &Cfg::hostile()).text } else { domain_mapping(rng, &Cfg::domain()) };
         let dom = is_representable(&text);
@@ -977,7 +977,7 @@ fn get_u32(b: &[u8], off: usize) -> u32 {
 
 pub fn gen_c11(rng: &mut Rng, tier: &str, out: &mut Out) {
     let th = thorough(tier);
-    let n = if th { 600 } else { 50 };
+    let n = if th { 600 } else { 200 };
     for i in 0..n {
         let mut cfg = Cfg::domain();
         cfg.max_classes = 3;
@@ -1126,7 +1126,7 @@ pub fn corrupt_buffers(rng: &mut Rng, bytes: &[u8], per: usize) -> Vec<Vec<u8>> 
 
 pub fn gen_c12(rng: &mut Rng, tier: &str, out: &mut Out) {
     let th = thorough(tier);
-    let n = if th { 1200 } else { 110 };
+    let n = if th { 1200 } else { 440 };
     for _ in 0..n {
         let mut cfg = Cfg::domain();
         cfg.max_classes = 4;
@@ -1171,7 +1171,7 @@ pub fn gen_c12(rng: &mut Rng, tier: &str, out: &mut Out) {
 
 pub fn gen_c13(rng: &mut Rng, tier: &str, out: &mut Out) {
     let th = thorough(tier);
-    let n = if th { 3000 } else { 260 };
+    let n = if th { 3000 } else { 1040 };
     for i in 0..n {
         let text = match i % 4 {
             0 => gen_mapping(rng, &Cfg::hostile()).text,
@@ -1220,7 +1220,7 @@ pub fn gen_c13(rng: &mut Rng, tier: &str, out: &mut Out) {
 
 pub fn gen_c14(rng: &mut Rng, tier: &str, out: &mut Out) {
     let th = thorough(tier);
-    let n = if th { 3000 } else { 300 };
+    let n = if th { 3000 } else { 1200 };
     for i in 0..n {
         let mut cfg = if i % 3 == 0 { Cfg::hostile() } else { Cfg::domain() };
         if i % 10 == 0 {
@@ -1239,7 +1239,7 @@ pub fn gen_c14(rng: &mut Rng, tier: &str, out: &mut Out) {
 
 pub fn gen_c15(rng: &mut Rng, tier: &str, out: &mut Out) {
     let th = thorough(tier);
-    let n = if th { 1500 } else { 150 };
+    let n = if th { 1500 } else { 600 };
     for _ in 0..n {
         let mut cfg = Cfg::domain();
         cfg.max_classes = 4;
@@ -1265,7 +1265,7 @@ pub fn gen_c15(rng: &mut Rng, tier: &str, out: &mut Out) {
 
 pub fn gen_c16(rng: &mut Rng, tier: &str, out: &mut Out) {
     let th = thorough(tier);
-    let n = if th { 1500 } else { 150 };
+    let n = if th { 1500 } else { 600 };
     for i in 0..n {
         let text = if i % 5 == 0 { Vec::new() } else { domain_mapping(rng, &Cfg::domain()) };
         map_op(out, true, &text);
@@ -1303,7 +1303,7 @@ pub fn gen_c16(rng: &mut Rng, tier: &str, out: &mut Out) {
 
 pub fn gen_c17(rng: &mut Rng, tier: &str, out: &mut Out) {
     let th = thorough(tier);
-    let n = if th { 40000 } else { 3000 };
+    let n = if th { 40000 } else { 12000 };
     let u = universe(b"o.A -> a:\n    1:3:void x():1:3 -> m\no.B$C -> a.b$c:\n    void <init>() -> <init>\n");
     let tg = TraceGen { u: &u };
     for _ in 0..n {
@@ -1343,7 +1343,7 @@ pub fn gen_c18(rng: &mut Rng, tier: &str, out: &mut Out) {
         out.d(format!("UUID {}", hx(&crlf)));
         out.count(&format!("corpus:{}", name));
     }
-    let n = if th { 3000 } else { 300 };
+    let n = if th { 3000 } else { 1200 };
     for i in 0..n {
         let len = match i % 6 {
             0 => rng.below(8),
@@ -1389,7 +1389,7 @@ pub fn gen_c18(rng: &mut Rng, tier: &str, out: &mut Out) {
 
 pub fn gen_c19(rng: &mut Rng, tier: &str, out: &mut Out) {
     let th = thorough(tier);
-    let n = if th { 5000 } else { 500 };
+    let n = if th { 5000 } else { 2000 };
     for i in 0..n {
         let mut t: Vec<u8> = Vec::new();
         match i % 6 {
@@ -1454,7 +1454,7 @@ pub fn gen_c19(rng: &mut Rng, tier: &str, out: &mut Out) {
 pub fn gen_c20(rng: &mut Rng, tier: &str, out: &mut Out) {
     // the sequential reference answers of the concurrent oracle are also tied to the model
     let th = thorough(tier);
-    let n = if th { 300 } else { 30 };
+    let n = if th { 300 } else { 120 };
     for _ in 0..n {
         let text = domain_mapping(rng, &Cfg::domain());
         map_op(out, true, &text);
